@@ -427,6 +427,16 @@ impl World {
         &mut self, name: &str, kind: &str, role: &str,
         limit: Option<&[String]>,
     ) -> Result<(), String> {
+        self.foreign_request_fam(name, kind, role, limit, "all")
+    }
+
+    /// ... fam: "all" = the limit names every resource family, "v4" = the
+    /// limit names the IPv4 family only (the other families are not
+    /// limited).
+    pub fn foreign_request_fam(
+        &mut self, name: &str, kind: &str, role: &str,
+        limit: Option<&[String]>, fam: &str,
+    ) -> Result<(), String> {
         let krill = self.env.krill.clone();
         let Some(f) = self.foreign.get(name) else {
             return Err("unknown foreign child".into())
@@ -457,9 +467,14 @@ impl World {
                     // every family is named: the certificate is to carry
                     // exactly these resources
                     let set = resources(atoms);
-                    lim.with_asn(set.asn().clone());
-                    lim.with_ipv4(set.ipv4().clone());
-                    lim.with_ipv6(set.ipv6().clone());
+                    if fam == "v4" {
+                        lim.with_ipv4(set.ipv4().clone());
+                    }
+                    else {
+                        lim.with_asn(set.asn().clone());
+                        lim.with_ipv4(set.ipv4().clone());
+                        lim.with_ipv6(set.ipv6().clone());
+                    }
                 }
                 provisioning::Message::issue(
                     sender, recipient, IssuanceRequest::new(class, lim, csr),
@@ -2455,9 +2470,10 @@ pub fn apply_action(w: &mut World, action: &Value) -> Result<Value, String> {
             let lim = list_arg(action, "lim");
             let nolim = action.get("nolim").and_then(|x| x.as_bool())
                 .unwrap_or(false);
-            w.foreign_request(
+            let fam = match str_arg(action, "fam") { "v4" => "v4", _ => "all" };
+            w.foreign_request_fam(
                 c, kind, str_arg(action, "x"),
-                if nolim || a != "FIssue" { None } else { Some(&lim) },
+                if nolim || a != "FIssue" { None } else { Some(&lim) }, fam,
             )?;
             Ok(json!("ok"))
         }
